@@ -135,6 +135,7 @@ func init() {
 			m.observe(concStr(a[0]), a[1], types.Typ[types.String])
 			return nil
 		},
+		verifrtPath + ".Thorough": func(m *Machine, fr *frame, a []value) value { return m.eng.Thorough },
 		verifrtPath + ".Symbolic": func(m *Machine, fr *frame, a []value) value { return true },
 		verifrtPath + ".EqString": func(m *Machine, fr *frame, a []value) value {
 			return m.strBinop(token.EQL, a[0], a[1])
